@@ -38,6 +38,11 @@ def analyse(prop_id, repo, tier, write_evidence=True, quiet=False,
     mod = importlib.import_module(f'sa.props.{prop_id}')
     ctx = CheckContext(prop_id, db, cg, tier)
     mod.check(ctx)
+    # the generic structural rules over everything the anchors can call
+    # (sa/rules/closure.py)
+    from .rules.closure import check_closure_idioms
+    if getattr(mod, 'GENERIC_SCAN', True):
+        check_closure_idioms(ctx)
     # floors: a rule that matches (almost) nothing must not pass silently
     for rule, minimum in ctx.floors.items():
         n = ctx.count(rule)
